@@ -84,6 +84,7 @@ func (c *fnCtx) expr(e ast.Expr) *Stmt {
 	case *ast.SliceExpr:
 		return seq(c.expr(x.X), c.expr(x.Low), c.expr(x.High), c.expr(x.Max))
 	case *ast.StarExpr:
+		c.wholeStruct(x, "copied")
 		return c.expr(x.X)
 	case *ast.TypeAssertExpr:
 		return c.expr(x.X)
@@ -614,6 +615,11 @@ func (c *fnCtx) rangeStmt(x *ast.RangeStmt) flow {
 		if e == nil {
 			continue
 		}
+		if _, ok := e.(*ast.Ident); !ok {
+			if _, _, _, _, gd := c.baseGuarded(e); gd {
+				c.t.fail(e.Pos(), "range assigns into guarded data: not supported")
+			}
+		}
 		if id, ok := e.(*ast.Ident); ok {
 			if x.Tok != token.DEFINE && id.Name != "_" {
 				if o := c.objOf(id); o != nil {
@@ -820,6 +826,7 @@ func (c *fnCtx) assign(lhs, rhs []ast.Expr, tok token.Token, at token.Pos) *Stmt
 			}
 			xs = append(xs, c.expr(x.X), c.expr(x.Index))
 		case *ast.StarExpr:
+			c.wholeStruct(x, "overwritten")
 			if r != nil {
 				c.escapes(r, "is stored through a pointer")
 			}
@@ -829,6 +836,19 @@ func (c *fnCtx) assign(lhs, rhs []ast.Expr, tok token.Token, at token.Pos) *Stmt
 		}
 	}
 	return seq(xs...)
+}
+
+// *p where p points to a struct of the guard table: all its guarded fields (and its mutex) at once
+func (c *fnCtx) wholeStruct(x *ast.StarExpr, how string) {
+	tp := c.pkg.Info.TypeOf(x)
+	if n, ok := tp.(*types.Named); ok {
+		if gs := c.t.specOf[n.Obj()]; gs != nil {
+			if r, pok := c.pathOf(x.X); pok && c.isFresh(r) {
+				return
+			}
+			c.t.fail(x.Pos(), "a whole %s is %s through a pointer: its guarded fields and its mutex would be accessed at once", gs.Type, how)
+		}
+	}
 }
 
 func (c *fnCtx) isFresh(r Ref) bool {
@@ -869,14 +889,15 @@ func isFreshValue(e ast.Expr) bool {
 
 func (t *Trans) translateAll() {
 	for _, fi := range t.order {
-		if fi.isHelper() {
+		if fi.isHelper() && !(fi.directCalls == 0 && fi.Recv != "") {
 			// still translated (so that anything it contains fails closed), but inlined at its call sites only
 			t.inlineBody(fi, fi.Decl.Pos())
 			if fi.directCalls == 0 {
-				t.notes = append(t.notes, "unreachable helper (no caller in the translated packages): "+fi.Name)
+				t.notes = append(t.notes, "unreachable function (unexported, never referred to in the translated packages): "+fi.Name)
 			}
 			continue
 		}
+		// (an unexported METHOD nobody calls directly may still be reached through an interface: kept as an entry)
 		c := t.newCtx(fi, false)
 		s := c.body(fi.Decl.Body)
 		c.finish(s)
